@@ -104,7 +104,9 @@ def cases(ctx):
                                 "spec": {"t": "data", "high": rom == "high", "org": org, "off": _phys(rom, org),
                                          "items": [("data", kind, [val])], "end": "zz_end"}})
             # .ascii
-            for text in ("", "A", "Hello, World", "caf\u00e9 \u00fc!", "\u00e9\u00e9", "tab\there", "a;b/*c*/", "[0x41]"):
+            for text in ("", "A", "Hello, World", "caf\u00e9 \u00fc!", "\u00e9\u00e9", "tab\there", "a;b/*c*/", "[0x41]",
+                         # an escaped quote (kept verbatim, backslash included) at the end / start / middle / alone; backslashes
+                         "rock \\'n\\'", "\\'x", "I\\'m", "\\'", "\\'\\'", "a\\\\b", "\\\\\\'", "''".replace("'", ""), " lead", "trail ", "  "):
                 org = _org(rng, rom)
                 src = f"*={org:#08x}\nzz_start:\n.ascii '{text}'\nzz_end:\n.dl zz_end\n"
                 out.append({"kind": "ascii", "rom": rom, "src": src,
